@@ -348,45 +348,72 @@ func rndSig(r *rand.Rand) absSig {
 
 // ---- observation of a decoded / built signal through the public getters ----
 
-func obsInsert(ci scte35.SpliceInsertCommand) Ev {
-	comps := []Ev{}
-	for _, k := range ci.Components() {
-		comps = append(comps, Ev{"tag": int(k.ComponentTag()), "haspts": k.HasPTS(), "pts": W64(uint64(k.PTS()))})
-	}
-	return Ev{"eid": eid4(ci.EventID()), "cancel": ci.IsEventCanceled(), "out": ci.IsOut(), "program": ci.IsProgramSplice(),
-		"hasdur": ci.HasDuration(), "immediate": ci.SpliceImmediate(), "comps": comps, "autoret": ci.IsAutoReturn(),
-		"dur": W64(uint64(ci.Duration())), "upid": int(ci.UniqueProgramId()), "avail": int(ci.AvailNum()), "avails": int(ci.AvailsExpected())}
+func obsInsert(ci scte35.SpliceInsertCommand) Ev { return obsInsertO(nil, ci) }
+
+func obsInsertO(e Ev, ci scte35.SpliceInsertCommand) Ev {
+	g := Ev{}
+	inOrder(e, func() {
+		comps := []Ev{}
+		for _, k := range ci.Components() {
+			c := Ev{}
+			inOrder(e, func() { c["tag"] = int(k.ComponentTag()) }, func() { c["haspts"] = k.HasPTS() }, func() { c["pts"] = W64(uint64(k.PTS())) })
+			comps = append(comps, c)
+		}
+		g["comps"] = comps
+	}, func() { g["eid"] = eid4(ci.EventID()) }, func() { g["cancel"] = ci.IsEventCanceled() }, func() { g["out"] = ci.IsOut() },
+		func() { g["program"] = ci.IsProgramSplice() }, func() { g["hasdur"] = ci.HasDuration() }, func() { g["immediate"] = ci.SpliceImmediate() },
+		func() { g["autoret"] = ci.IsAutoReturn() }, func() { g["dur"] = W64(uint64(ci.Duration())) }, func() { g["upid"] = int(ci.UniqueProgramId()) },
+		func() { g["avail"] = int(ci.AvailNum()) }, func() { g["avails"] = int(ci.AvailsExpected()) })
+	return g
 }
 
-func obsSeg(d scte35.SegmentationDescriptor, s scte35.SCTE35) Ev {
-	comps := []Ev{}
-	for _, k := range d.Components() {
-		comps = append(comps, Ev{"tag": int(k.ComponentTag()), "off": W64(uint64(k.PTSOffset()))})
-	}
-	mid := []Ev{}
-	for _, m := range d.MID() {
-		mid = append(mid, Ev{"type": int(m.UPIDType()), "upid": B(m.UPID())})
-	}
-	return Ev{"eid": eid4(d.EventID()), "cancel": d.IsEventCanceled(), "backref": d.SCTE35() == s, "progseg": d.HasProgramSegmentation(),
-		"hasdur": d.HasDuration(), "dnr": d.IsDeliveryNotRestricted(), "web": d.IsWebDeliveryAllowed(), "noblk": d.HasNoRegionalBlackout(),
-		"arch": d.IsArchiveAllowed(), "dev": int(d.DeviceRestrictions()), "comps": comps, "dur": W64(uint64(d.Duration())),
-		"upidtype": int(d.UPIDType()), "upid": B(d.UPID()), "mid": mid, "type": int(d.TypeID()), "segnum": int(d.SegmentNumber()),
-		"segexp": int(d.SegmentsExpected()), "hassub": d.HasSubSegments(), "subnum": int(d.SubSegmentNumber()), "subexp": int(d.SubSegmentsExpected())}
+func obsSeg(d scte35.SegmentationDescriptor, s scte35.SCTE35) Ev { return obsSegO(nil, d, s) }
+
+func obsSegO(e Ev, d scte35.SegmentationDescriptor, s scte35.SCTE35) Ev {
+	g := Ev{}
+	inOrder(e, func() {
+		comps := []Ev{}
+		for _, k := range d.Components() {
+			comps = append(comps, Ev{"tag": int(k.ComponentTag()), "off": W64(uint64(k.PTSOffset()))})
+		}
+		g["comps"] = comps
+	}, func() {
+		mid := []Ev{}
+		for _, m := range d.MID() {
+			mid = append(mid, Ev{"type": int(m.UPIDType()), "upid": B(m.UPID())})
+		}
+		g["mid"] = mid
+	}, func() { g["eid"] = eid4(d.EventID()) }, func() { g["cancel"] = d.IsEventCanceled() }, func() { g["backref"] = d.SCTE35() == s },
+		func() { g["progseg"] = d.HasProgramSegmentation() }, func() { g["hasdur"] = d.HasDuration() }, func() { g["dnr"] = d.IsDeliveryNotRestricted() },
+		func() { g["web"] = d.IsWebDeliveryAllowed() }, func() { g["noblk"] = d.HasNoRegionalBlackout() }, func() { g["arch"] = d.IsArchiveAllowed() },
+		func() { g["dev"] = int(d.DeviceRestrictions()) }, func() { g["dur"] = W64(uint64(d.Duration())) }, func() { g["upidtype"] = int(d.UPIDType()) },
+		func() { g["upid"] = B(d.UPID()) }, func() { g["type"] = int(d.TypeID()) }, func() { g["segnum"] = int(d.SegmentNumber()) },
+		func() { g["segexp"] = int(d.SegmentsExpected()) }, func() { g["hassub"] = d.HasSubSegments() }, func() { g["subnum"] = int(d.SubSegmentNumber()) },
+		func() { g["subexp"] = int(d.SubSegmentsExpected()) })
+	return g
 }
 
-func obsSig(s scte35.SCTE35) Ev {
-	g := Ev{"tier": int(s.Tier()), "cmdtype": int(s.Command()), "haspts": s.HasPTS(), "pts": W64(uint64(s.PTS())),
-		"cmd_haspts": s.CommandInfo().HasPTS(), "cmd_pts": W64(uint64(s.CommandInfo().PTS())), "astuff": int(s.AlignmentStuffing())}
-	if ci, ok := s.CommandInfo().(scte35.SpliceInsertCommand); ok {
-		g["insert"] = obsInsert(ci)
-	} else {
-		g["insert"] = Ev{}
-	}
-	ds := []Ev{}
-	for _, d := range s.Descriptors() {
-		ds = append(ds, obsSeg(d, s))
-	}
-	g["descs"] = ds
+func obsSig(s scte35.SCTE35) Ev { return obsSigO(nil, s) }
+
+// obsSigO queries every getter of the signal in the order the event's key selects (nil: as listed).
+func obsSigO(e Ev, s scte35.SCTE35) Ev {
+	g := Ev{}
+	inOrder(e, func() { g["tier"] = int(s.Tier()) }, func() { g["cmdtype"] = int(s.Command()) }, func() { g["haspts"] = s.HasPTS() },
+		func() { g["pts"] = W64(uint64(s.PTS())) }, func() { g["cmd_haspts"] = s.CommandInfo().HasPTS() },
+		func() { g["cmd_pts"] = W64(uint64(s.CommandInfo().PTS())) }, func() { g["astuff"] = int(s.AlignmentStuffing()) },
+		func() {
+			if ci, ok := s.CommandInfo().(scte35.SpliceInsertCommand); ok {
+				g["insert"] = obsInsertO(e, ci)
+			} else {
+				g["insert"] = Ev{}
+			}
+		}, func() {
+			ds := []Ev{}
+			for _, d := range s.Descriptors() {
+				ds = append(ds, obsSegO(e, d, s))
+			}
+			g["descs"] = ds
+		})
 	return g
 }
 
